@@ -253,13 +253,15 @@ theorem readsOf_congr {w w' : PWorld} (h : SameGraph w w') (t : Oid) (m : Name) 
   unfold readsOf methodSpecs
   simp only [classOf_congr h, follow_congr h]
 
-theorem installed_congr_log {w : PWorld} {t : Oid} {m : Name} {specs : List PathSpec} (hi : Installed w t m specs) (l : List Call) :
-    Installed { w with log := l } t m specs :=
+theorem installed_invoke {w : PWorld} {t : Oid} {m : Name} {specs : List PathSpec} (hi : Installed w t m specs) (x : DW) :
+    Installed (invoke w x) t m specs :=
   ⟨by
-    have := builtM_congr (w := w) (w' := { w with log := l }) ⟨rfl, rfl⟩ t specs
+    have := builtM_congr (w := w) (w' := invoke w x) ⟨rfl, rfl⟩ t specs
     rw [this]
     exact hi.shapes, hi.owned, hi.cbs, hi.dynKeys⟩
 
+/-- one watcher invocation.  The rebinding callback runs before the method body: whether or not the
+body raises (`invoke` sets `raised`), the world it leaves is rebuilt and the call is logged. -/
 theorem callWatcherP_installed (u : PWorld) (t : Oid) (m : Name) (specs : List PathSpec) (x : DW) (p : Name) (old v : Val)
     (hs : Scope u t m specs)
     (hown : ∀ y ∈ u.watchers, y.id ∈ dynGet u.dyn (t, m)) (hkeys : ∀ e ∈ u.dyn, e.1 = (t, m))
@@ -278,16 +280,16 @@ theorem callWatcherP_installed (u : PWorld) (t : Oid) (m : Name) (specs : List P
       simp only
       by_cases hsk : skipEvent u x.changed p old v = true
       · exact ⟨u, by simp [hsk], SameGraph.refl u, by simp [hsk], fun _ => ⟨rfl, rfl⟩, fun h => absurd rfl h.2⟩
-      · refine ⟨{ u with log := u.log ++ [⟨x.owner, x.method, readsOf u x.owner x.method⟩] }, by simp [hsk], ⟨rfl, rfl⟩,
-          by simp [hsk, hx.1, hx.2], fun _ => ⟨rfl, rfl⟩, fun h => absurd rfl h.2⟩
+      · refine ⟨invoke u x, by simp [hsk], ⟨rfl, rfl⟩,
+          by simp [hsk, invoke, hx.1, hx.2], fun _ => ⟨rfl, rfl⟩, fun h => absurd rfl h.2⟩
     | some a =>
       simp only
       obtain ⟨u3, h1, h2, h3, h4⟩ := rebuild_gen u t m specs a false hs hown hkeys (hcb a hc) (fun h => by cases h)
       rw [hx.1, h1]
-      simp only [skipEvent_congr h2, readsOf_congr h2, hx.2]
+      simp only [skipEvent_congr h2]
       by_cases hsk : skipEvent u x.changed p old v = true
       · exact ⟨u3, by simp [hsk], h2, by simp [hsk, h3], fun h => by simp_all, fun _ => h4⟩
-      · refine ⟨{ u3 with log := u3.log ++ [⟨t, m, readsOf u t m⟩] }, by simp [hsk], ⟨h2.1, h2.2⟩,
-          by simp [hsk, h3], fun h => by simp_all, fun _ => installed_congr_log h4 _⟩
+      · refine ⟨invoke u3 x, by simp [hsk], ⟨h2.1, h2.2⟩,
+          by simp [hsk, invoke, h3, hx.1, hx.2, readsOf_congr h2], fun h => by simp_all, fun _ => installed_invoke h4 x⟩
 
 end ParamVerif.Depends
